@@ -1,3 +1,183 @@
+/-
+C08 — Default validation rejects unbounded or too-deep recursive selectors.
+
+  "With default settings, a responder rejects every request whose well-formed selector contains,
+   at any nesting depth and under any kind of explore clause including interpret-as, a recursive
+   exploration that is unbounded or limited to a depth above 100.  Requests whose recursive
+   explorations are all limited to depth 100 or less pass this validation."
+
+Everything here is proved about the *generated* definitions in GS/Generated/ValidatorSpec.lean
+(the builder expression of `maxDepthSelector`, the visit callback's decision table, the default
+wiring), which the translator rewrites from the Go source on every check: `covers` below is a
+record of `rfl`s over the generated selector, one per clause kind of the selector language.
+-/
 import GS.Model.Validator
+import GSProofs.Lemmas.SelectorWalk
 namespace GS.C08
+open GS.Sel GS.Validator GS.Generated.ValidatorSpec
+
+/-- the field table of the compiled generated selector (`maxDepthSelector`) -/
+def genFields : List (String × RSel) :=
+  match compile maxDepthSelectorSpec with
+  | some (.recursive (.fields fs) _ _) => fs
+  | _ => []
+
+/-- `maxDepthSelector` parses, and is an unlimited recursion over a fields clause -/
+theorem validatorSel_eq : validatorSel = .ok (Vof genFields) := by rfl
+
+/-- the generated selector has a branch for every clause kind that can hold a nested selector:
+    recursive (limit matched, sequence followed), fields, union, all, index, range, interpret-as;
+    matcher and recursive-edge are leaves.  On a tree where a branch is missing (as `"~"` was
+    before the fix fb1fbba) the corresponding `rfl` fails. -/
+theorem covers : Covers genFields :=
+  { nodup := rfl, recursive_ := rfl, fields_ := rfl, union_ := rfl, all_ := rfl, index_ := rfl,
+    range_ := rfl, interpretAs_ := rfl, matcher_ := rfl, edge_ := rfl }
+
+/-- every recursion limit occurring anywhere in `s` is a depth limit of at most `max` -/
+def AllBounded (max : Int) (s : Sel) : Prop := ∀ l ∈ limits s, ∃ d, l = Limit.depth d ∧ d ≤ max
+
+/-! ### the visit callback on limit nodes (from the generated decision table) -/
+
+theorem callback_none (max : Int) : callback max (encLimit .none) = .reject := by
+  have h : (lookupAction "none" callbackCases).getD callbackDefault = Action.reject := rfl
+  simp [callback, encLimit, h, runAction]
+
+theorem callback_depth (max d : Int) :
+    callback max (encLimit (.depth d)) = if d > max then .reject else .ok := by
+  have h : (lookupAction "depth" callbackCases).getD callbackDefault = Action.intCheck Cmp.gt := rfl
+  simp [callback, encLimit, h, runAction, Cmp.eval]
+
+/-- executable form of the right-hand side -/
+def limitOk (max : Int) : Limit → Bool
+  | .none => false
+  | .depth d => decide (d ≤ max)
+
+theorem all_limitOk_iff (max : Int) (ls : List Limit) :
+    ls.all (limitOk max) = true ↔ ∀ l ∈ ls, ∃ d, l = Limit.depth d ∧ d ≤ max := by
+  simp only [List.all_eq_true]
+  constructor
+  · intro h l hl
+    have := h l hl
+    cases l with
+    | none => simp [limitOk] at this
+    | depth d => exact ⟨d, rfl, by simpa [limitOk] using this⟩
+  · intro h l hl
+    obtain ⟨d, rfl, hd⟩ := h l hl
+    simpa [limitOk] using hd
+
+theorem verdictOf_limits (max : Int) :
+    ∀ ls : List Limit, verdictOf max false (ls.map encLimit) =
+      if ls.all (limitOk max) then Verdict.ok else Verdict.invalidLimit
+  | [] => by simp [verdictOf]
+  | .none :: rest => by simp [verdictOf, callback_none, limitOk]
+  | .depth d :: rest => by
+    simp only [List.map_cons, verdictOf, callback_depth, List.all_cons, limitOk]
+    by_cases h : d > max
+    · have : ¬ d ≤ max := by omega
+      simp [h, this]
+    · have hle : d ≤ max := by omega
+      simp [h, hle, verdictOf_limits max rest]
+
+/-- `ValidateMaxRecursionDepth(enc s, max)` for every selector specification `s` (well-formed or
+    not) and every `max`: nil iff all recursions are depth-limited to at most `max`, otherwise
+    exactly ErrInvalidLimit (never a panic or another error). -/
+theorem validate_eq (max : Int) (s : Sel) :
+    validate max (enc s) = if (limits s).all (limitOk max) then Verdict.ok else Verdict.invalidLimit := by
+  unfold validate
+  rw [validatorSel_eq]
+  simp only [walk_enc genFields covers s, verdictOf_limits]
+
+theorem iff_all (max : Int) (s : Sel) : validate max (enc s) = Verdict.ok ↔ AllBounded max s := by
+  rw [validate_eq max s, AllBounded, ← all_limitOk_iff]
+  cases (limits s).all (limitOk max) <;> simp
+
+/-- **C08, validation part.**  For every well-formed selector specification `s`:
+    `ValidateMaxRecursionDepth(s, 100)` accepts iff every `ExploreRecursive` clause occurring
+    anywhere in `s` — under all / fields / index / range / union / interpret-as clauses and inside
+    other recursions' sequences — has a depth limit `d ≤ 100` (`limits s` collects the limit of
+    every such clause; see `mem_limits_iff` for the occurrence reading).
+    (The hypothesis `wf s` is what the property quantifies over; `iff_all` shows it is not needed.) -/
+theorem iff (s : Sel) (_ : wf s = true) :
+    validate 100 (enc s) = Verdict.ok ↔ ∀ l ∈ limits s, ∃ d, l = Limit.depth d ∧ d ≤ 100 :=
+  iff_all 100 s
+
+/-- the same statement with the right-hand side spelled out over clause occurrences: every
+    `ExploreRecursive` clause occurring anywhere in `s` (`Occurs`, GSProofs/Lemmas/SelectorWalk.lean:
+    under all, fields, index, range, recursive sequences, union members, interpret-as) -/
+theorem iff_occurs (s : Sel) (h : wf s = true) :
+    validate 100 (enc s) = Verdict.ok ↔
+      ∀ l seq st, Occurs (.recursive l seq st) s → ∃ d, l = Limit.depth d ∧ d ≤ 100 := by
+  rw [iff s h]
+  constructor
+  · intro hh l seq st o; exact hh l ((mem_limits_iff s l).2 ⟨seq, st, o⟩)
+  · intro hh l hl
+    obtain ⟨seq, st, o⟩ := (mem_limits_iff s l).1 hl
+    exact hh l seq st o
+
+/-- the rejecting direction, with the precise error: an unbounded or too deep recursion anywhere
+    makes the validator return ErrInvalidLimit -/
+theorem reject_iff (max : Int) (s : Sel) :
+    validate max (enc s) = Verdict.invalidLimit ↔ ¬ AllBounded max s := by
+  rw [validate_eq max s, AllBounded, ← all_limitOk_iff]
+  cases (limits s).all (limitOk max) <;> simp
+
+/-! ### default wiring (facts extracted from impl/graphsync.go and preparequery.go) -/
+
+/-- **C08, wiring part.**  impl.New registers the validator by default with
+    `maxRecursionDepth = 100`, the hook set it is registered in is the one handed to the
+    response manager, and prepareQuery answers a request that no hook validated (and no hook
+    failed) with RequestRejected, while a validated, unpaused request gets no terminal status
+    there. -/
+theorem default_wired :
+    maxRecursionDepth = 100 ∧ registeredDepth = maxRecursionDepth ∧
+    registerDefaultValidator = true ∧ hooksReachResponder = true ∧ hookValidatesIffNil = true ∧
+    (∀ r : HookResult, r.err = false → r.validated = false →
+        firstAction r prepareQueryChain = some (.finishWithError "RequestRejected")) ∧
+    (∀ r : HookResult, r.err = false → r.validated = true → r.paused = false →
+        firstAction r prepareQueryChain = none) := by
+  refine ⟨rfl, rfl, rfl, rfl, rfl, ?_, ?_⟩
+  · intro r h1 h2; simp [prepareQueryChain, firstAction, condHolds, h1, h2]
+  · intro r h1 h2 h3; simp [prepareQueryChain, firstAction, condHolds, h1, h2, h3]
+
+/-- with default settings the responder's prepareQuery rejects exactly the requests whose
+    selector has an unbounded or deeper-than-100 recursion … -/
+theorem default_rejects (s : Sel) :
+    defaultResponse (enc s) = some (.finishWithError "RequestRejected") ↔ ¬ AllBounded 100 s := by
+  have hv : validate registeredDepth (enc s) = validate 100 (enc s) := rfl
+  have hw : (registerDefaultValidator && hooksReachResponder && hookValidatesIffNil) = true := rfl
+  unfold defaultResponse defaultHookResult
+  rw [hw, hv]
+  by_cases h : AllBounded 100 s
+  · have := (iff_all 100 s).2 h
+    simp [this, prepareQueryChain, firstAction, condHolds, h]
+  · have := (reject_iff 100 s).2 h
+    simp [this, prepareQueryChain, firstAction, condHolds, h]
+
+/-- … and lets all others through (no terminal status at this stage). -/
+theorem default_passes (s : Sel) : defaultResponse (enc s) = none ↔ AllBounded 100 s := by
+  have hv : validate registeredDepth (enc s) = validate 100 (enc s) := rfl
+  have hw : (registerDefaultValidator && hooksReachResponder && hookValidatesIffNil) = true := rfl
+  unfold defaultResponse defaultHookResult
+  rw [hw, hv]
+  by_cases h : AllBounded 100 s
+  · have := (iff_all 100 s).2 h
+    simp [this, prepareQueryChain, firstAction, condHolds, h]
+  · have := (reject_iff 100 s).2 h
+    simp [this, prepareQueryChain, firstAction, condHolds, h]
+
+/-! ### non-vacuity and boundary (tests of the statements on concrete selectors) -/
+
+/-- a well-formed selector nesting a recursion under interpret-as inside a union inside another
+    recursion's sequence: hypotheses of `iff` are satisfiable, both sides true -/
+def exDeep (d : Int) : Sel :=
+  .recursive (.depth 5) (.union [.all .edge,
+    .fields [("Links", .index 0 (.interpretAs "unixfs" (.recursive (.depth d) (.all .edge) (some 7))))]]) none
+
+example : wf (exDeep 100) = true := by decide
+example : validate 100 (enc (exDeep 100)) = Verdict.ok := (iff _ (by decide)).2 (by simp [exDeep, limits, limitsFields, limitsList])
+example : validate 100 (enc (exDeep 101)) = Verdict.invalidLimit :=
+  (reject_iff 100 _).2 (by simp [AllBounded, exDeep, limits, limitsFields, limitsList])
+example : validate 100 (enc (.interpretAs "unixfs" (.recursive .none (.all .edge) none))) = Verdict.invalidLimit :=
+  (reject_iff 100 _).2 (by simp [AllBounded, limits])
+
 end GS.C08
